@@ -399,10 +399,18 @@ func sample(a int, count int) []int {
 	if count > 1 {
 		tries = 64
 	}
+	errs := 0
 	for i := 0; i < tries; i++ {
 		resp, err := cl.Get(url)
 		if err != nil {
+			errs++
 			if count == 0 {
+				break
+			}
+			if errs >= 4 {
+				// several sockets are counted on the address and probes keep going unanswered:
+				// somebody holds a socket there that nobody accepts from
+				seen[999998] = true
 				break
 			}
 			continue
